@@ -108,7 +108,16 @@ func sortedTrace(tr []string) string {
 }
 
 func runTree(tree ast.Stmt, preset int, timeout time.Duration) (o obs) {
+	return runTreeOpts(tree, preset, timeout, nil, nil)
+}
+
+// runTreeOpts is runTree with the *vm.Options value the host passes (nil: the interpreter makes one
+// for the run) and a hook that may bind more host names before the run.
+func runTreeOpts(tree ast.Stmt, preset int, timeout time.Duration, opts *vm.Options, prep func(*host)) (o obs) {
 	hst := newHost(preset)
+	if prep != nil {
+		prep(hst)
+	}
 	ctx, cancel := context.WithTimeout(context.Background(), timeout)
 	defer cancel()
 	defer func() {
@@ -116,7 +125,7 @@ func runTree(tree ast.Stmt, preset int, timeout time.Duration) (o obs) {
 			o.panic = fmt.Sprint(r)
 		}
 	}()
-	v, err := vm.RunContext(ctx, hst.env, nil, tree)
+	v, err := vm.RunContext(ctx, hst.env, opts, tree)
 	o.value = prog.RenderGo(v)
 	if err != nil {
 		o.err = err.Error()
@@ -446,10 +455,56 @@ var residueWrites = []string{
 }
 var residueValues = []string{"5", "\"x\"", "true", "nil", "[1]", "7.5", "-1"}
 
+// Error values are values the interpreter hands out as well: the catch variable of try is bound to the
+// error itself. The idioms below raise an error inside try in every way a script can (a failed lookup,
+// index, member access or call, throw, and break / continue / return where try catches them: directly in
+// the try block, at top level, in a function, in a loop) and write through every handle the script gets
+// on the caught value (member stores, op=, a pointer to a member, a parameter, a list element, a copy
+// kept after the try, a store of another caught error through the dereferenced value). {R} = what
+// raises, {V} = the value stored. Each idiom is wrapped in a try of its own, so that a refused store
+// (which is what most of them are) does not keep the following idioms from running.
+var residueRaises = []string{"break", "continue", "return", "return 1", "throw(\"t\")", "throw(nil)", "undefinedname", "[1][3]", "nil.x", "one(1, 2)", "nothing()()", "1 / 0", "*1", "rundef.f()", "make(NoSuchType)"}
+var residueErrValues = []string{"\"x\"", "\"\"", "\"unexpected break statement\"", "\"changed by an earlier run\"", "5", "nil", "[1]"}
+var residueErrWrites = []string{
+	"try { {R} } catch e { e.Message = {V} }",
+	"try { {R} } catch e { e.Message += \"+\" }",
+	"try { {R} } catch e { e.Pos.Line = 77\ne.Pos.Column = 5 }",
+	"try { {R} } catch e { e.Pos.Line++\ne.Pos.Line += 100 }",
+	"try { {R} } catch e { rp = &e.Message\n*rp = {V} }",
+	"try { {R} } catch e { rp = &e.Pos\nrp.Line = 9 }",
+	"try { {R} } catch e { func(x) { x.Message = {V} }(e) }",
+	"try { {R} } catch e { rl = [e]\nrl[0].Message = {V} }",
+	"rm = {}\ntry { {R} } catch e { rm.e = e }\nrm.e.Message = {V}",
+	"re = nil\ntry { {R} } catch e { re = e }\nre.Message = {V}\nre.Pos.Line = 3",
+	"ro = nil\ntry { throw(\"other\") } catch e2 { ro = e2 }\ntry { {R} } catch e { *e = *ro }",
+	"ro = nil\ntry { throw(\"other\") } catch e2 { ro = e2 }\ntry { {R} } catch e { e.Pos = ro.Pos\ne.Message = ro.Message }",
+	"func rf() { try { {R} } catch e { e.Message = {V} }\nreturn 0 }\nrf()\nrf()",
+	"func rf() { for { try { {R} } catch e { e.Message = {V}\ne.Pos.Line = 8 }\nreturn 0 } }\nrf()",
+	"for ri = 0; ri < 2; ri++ { try { {R} } catch e { e.Message = {V} } }",
+	"for ri in [1, 2] { try { {R} } catch e { e.Message += {V} } }",
+	"rz = 0\ntry { {R} } catch e { e.Message = {V} } finally { rz = 1 }",
+	"try { func() { try { {R} } catch e { e.Message = {V}\nthrow(e) } }() } catch e3 { e3.Message = {V} }",
+}
+
+func genResidueErr(t *rapid.T) string {
+	w := rapid.SampledFrom(residueErrWrites).Draw(t, "errwrite")
+	for strings.Contains(w, "{R}") {
+		w = strings.Replace(w, "{R}", rapid.SampledFrom(residueRaises).Draw(t, "raise"), 1)
+	}
+	for strings.Contains(w, "{V}") {
+		w = strings.Replace(w, "{V}", rapid.SampledFrom(residueErrValues).Draw(t, "errval"), 1)
+	}
+	return "try {\n" + w + "\n} catch { }"
+}
+
 func genResidue(t *rapid.T) ResidueCase {
 	var c ResidueCase
 	n := rapid.IntRange(1, 3).Draw(t, "n")
 	for i := 0; i < n; i++ {
+		if rapid.IntRange(0, 3).Draw(t, "family") == 0 {
+			c.Stmts = append(c.Stmts, genResidueErr(t))
+			continue
+		}
 		w := rapid.SampledFrom(residueWrites).Draw(t, "write")
 		var args []interface{}
 		first := true
@@ -482,12 +537,58 @@ cm[cl[1]] = 2
 
 var residueBaseline string
 
-func runCanary() string {
+// residueErrCanaries are run one by one, each in a fresh environment: what the errors a script can raise
+// and catch look like to a later run, and what a run that ends with one of them reports to the host.
+var residueErrCanaries = []string{
+	"break", "continue", "func f() { break }\nf()", "func f() { continue }\nf()", "throw(\"t\")",
+	`r = []
+try { break } catch e { r += [e.Error()] }
+try { continue } catch e { r += [e.Error()] }
+try { return 1 } catch e { r += [e.Error()] }
+func f() { try { return 1 } catch e { return e.Error() }
+return 2 }
+r += [f()]
+for i = 0; i < 1; i++ { try { break } catch e { r += [e.Error()] } }
+try { undefinedname } catch e { r += [e.Message, e.Pos.Line, e.Pos.Column, e.Error()] }
+try { throw("t") } catch e { r += [e.Message, e.Pos.Line, e.Pos.Column, e.Error()] }
+try { [1][3] } catch e { r += [e.Message, e.Pos.Line, e.Pos.Column] }
+try { try { break } catch e { r += [e.Message] } } catch e2 { r += [e2.Error()] }
+try { try { continue } catch e { r += [e.Pos.Line] } } catch e2 { r += [e2.Error()] }
+try { func() { try { return } catch e { r += [e.Message, e.Pos.Line] } }() } catch e2 { r += [e2.Error()] }
+r`,
+}
+
+// canarySep separates the result of the value canary from the results of the error canaries
+const canarySep = " || errors:"
+
+func runCanary() string { return runCanaryValues() + canarySep + runCanaryErrors() }
+
+func runCanaryValues() string {
 	v, err := vm.Execute(env.NewEnv(), nil, residueCanary)
 	if err != nil {
 		return "error: " + err.Error()
 	}
 	return prog.RenderGo(v)
+}
+
+// residueErrorsChanged: an earlier case changed what the error canaries report (the process stays changed)
+var residueErrorsChanged bool
+
+func runCanaryErrors() string {
+	var out string
+	for _, src := range residueErrCanaries {
+		v, err := vm.Execute(env.NewEnv(), nil, src)
+		pos := ""
+		if ve, ok := err.(*vm.Error); ok {
+			pos = fmt.Sprintf("@%d:%d", ve.Pos.Line, ve.Pos.Column)
+		}
+		if err != nil {
+			out += fmt.Sprintf(" | error: %s%s", err.Error(), pos)
+		} else {
+			out += " | " + prog.RenderGo(v)
+		}
+	}
+	return out
 }
 
 // residueCulprit is the first program after which the canary changed (diagnostic only: once the
@@ -501,7 +602,17 @@ func oracleResidue(c ResidueCase, o *h.Obs) *h.Fail {
 	src := "func nothing() { }\nfunc one() { return 1 }\n" + strings.Join(c.Stmts, "\n")
 	o.Key = src
 	o.NonTrivial = true
-	if cv := runCanary(); cv != residueBaseline {
+	if strings.Contains(src, "e.Message") || strings.Contains(src, "e.Pos") || strings.Contains(src, "*e = ") {
+		o.Class("residue_writes_through_a_caught_error")
+		for _, cf := range []string{"break", "continue", "return"} {
+			if strings.Contains(src, "try { "+cf+" }") || strings.Contains(src, "try { "+cf+" 1 }") {
+				o.Class("residue_caught_error_is_a_stray_" + cf)
+			}
+		}
+	}
+	// (the error canaries are run after the case only: nothing runs between two cases)
+	if cvv := runCanaryValues(); cvv != strings.SplitN(residueBaseline, canarySep, 2)[0] || residueErrorsChanged {
+		cv := cvv + canarySep + runCanaryErrors()
 		return h.Failf("C14|residue|canary-already-changed", "the canary program no longer evaluates to its start-of-process result BEFORE this case ran (an earlier run left residue)\nbaseline %s\nnow      %s\nfirst seen changed after the program:\n%s", residueBaseline, cv, residueCulprit)
 	}
 	func() {
@@ -513,6 +624,13 @@ func oracleResidue(c ResidueCase, o *h.Obs) *h.Fail {
 	if cv := runCanary(); cv != residueBaseline {
 		if residueCulprit == "" {
 			residueCulprit = src
+		}
+		if strings.SplitN(cv, canarySep, 2)[0] == strings.SplitN(residueBaseline, canarySep, 2)[0] {
+			// the values are as they were: what changed is an error that later runs raise, catch or end with
+			residueErrorsChanged = true
+			f := h.Failf("C14|residue|a-run-changed-an-error-later-runs-receive", "after this program ran in its own environment, fixed programs run in FRESH environments catch or end with a different error: an error value is shared by all executions and a script can write to it\nprogram:\n%s\ncanary programs: %q\nbefore %s\nafter  %s", src, residueErrCanaries, strings.SplitN(residueBaseline, canarySep, 2)[1], strings.SplitN(cv, canarySep, 2)[1])
+			f.NoShrink = true // the process stays changed: a re-execution of any candidate fails before it starts
+			return f
 		}
 		return h.Failf("C14|residue|a-run-changed-what-fresh-environments-compute", "after this program ran in its own environment, a fixed canary program run in a FRESH environment evaluates differently: executions share hidden mutable state\nprogram:\n%s\ncanary:\n%s\nbefore %s\nafter  %s", src, residueCanary, residueBaseline, cv)
 	}
@@ -733,4 +851,6 @@ func TestC14(t *testing.T) {
 	h.Run(c, "importtypes", c.N(1500, 15000), genImportTypes, oracleImportTypes)
 	c.Rule("objects: 1-3 programs that import a bundled package, make an object with a constructor of its table (compiled regular expression - four constructors -, byte buffer, string reader, replacer, big integer, parsed URL, error value) from arguments that carry a number drawn from 0..2^24 (the programs of a case share them), observe it through 1-5 method calls of which some change the object (Longest, WriteString, ReadByte, Reset, Add, SetInt64, field stores ...), and return the list of observations; 4-8 executions, each in a fresh environment, then optionally every program from 2-3 goroutines at once; every execution of one source must give the result its first execution gave; non-trivial = a program ran at least twice and some program changes its object and observes it afterwards")
 	h.Run(c, "objects", c.N(1200, 10000), genObjects, oracleObjects)
+	c.Rule("options: one program parsed once and ONE *vm.Options value (Debug drawn) passed to every run: 2 .. some hundred runs one after the other, then 2-16 goroutines at once, every run in a fresh environment (alternating presets); every run must equal a fresh parse run in an equal fresh environment with an Options value of its own. Programs: a loop of 1-150 calls that fail (twelve forms: a Go function that panics, a callback that fails inside a Go function, failed lookup / index / member / conversion / arity, throw) each caught and followed by a successful call, optionally ending with an uncaught failure; or recursion 1-2500 deep (plain, closure variable, mutual, with deferred calls, failing at the bottom, with a caught failure at every level); the host function meet() at the deepest point makes the concurrent runs wait for each other. Every second case is large (12 000-26 000 failing calls made with the one Options value, or recursion 1500-2500 deep in each of 8-16 goroutines); non-trivial = at least 3 runs with the one Options value")
+	h.Run(c, "options", c.N(24, 360), genOptions, oracleOptions)
 }
